@@ -159,8 +159,8 @@ class Writer:
 
     def _extract(self):
         for ev in self.events:
-            if ev.kind != "call" or ev.stack:
-                continue
+            if ev.kind != "call":
+                continue  # events of inlined helpers count: extracting a helper must not change the table
             m, recv, args = ev["method"], ev["recv"], ev["args"]
             if recv == self.f:
                 if m == "write" and len(args) == 1:
@@ -177,8 +177,8 @@ class Writer:
                     self.other_file_ops.append(ev)
             elif m == "tofile" and args and args[0] == self.f:
                 self.fields.append(Field("array", ev, arr=recv, inloop=bool(ev.loops)))
-            elif any(a == self.f for a in args) and ev["name"] not in ("builtins.print",):
-                self.other_file_ops.append(ev)
+            elif any(a == self.f for a in args) and ev["name"] not in ("builtins.print",) and not ev["resolved"]:
+                self.other_file_ops.append(ev)  # (repo helpers are inlined: their own events are examined)
 
     # dtype of a written array, from the shape of its term and the guards in force
     def array_dtype(self, t, guards=()):
@@ -274,7 +274,7 @@ class Reader:
             if ev.kind == "store_sub" and not ev.stack:
                 self.ops.append(Field("store", ev, base=ev["base"], index=ev["index"], value=ev["value"]))
                 continue
-            if ev.kind != "call" or ev.stack:
+            if ev.kind != "call":
                 continue
             nm, m, recv, args = ev["name"], ev["method"], ev["recv"], ev["args"]
             if recv == self.f and m in ("read", "readline", "readinto", "readlines", "seek"):
